@@ -110,6 +110,9 @@ type impl struct{}
 
 func (impl) Close() {}
 
+// function data objects of the running history, by feature type (reset by every new history)
+var historyFds = map[int64][]api.FunctionDataCmdInterface{}
+
 // anyPtr turns a tree into the `any` argument of the builders: nil, or a pointer to a value of type s.
 func anyPtr(v c18lib.V, s *c18lib.Struct) any {
 	if v.IsNil() || s == nil {
@@ -181,10 +184,22 @@ func execRow(op hx.Zs) (out []hx.Zs) {
 			out = append(out, obs(19, panicSite(r)))
 		}
 	}()
-	// the function data object the stack registers for this feature type
-	fds, ok := c18lib.CreateFor(model.FeatureTypeType(fac.FeatureTypes[ft]))
+	// the function data objects the stack registers for this feature type; they are kept for the
+	// whole history (as a feature keeps them), so that a command built earlier on the same object
+	// cannot leak into a later one unnoticed
+	fds, ok := historyFds[ft]
+	if data.IsNil() {
+		ok = false // a row without stored data needs an object that has never stored any
+		delete(historyFds, ft)
+	}
 	if !ok {
-		return []hx.Zs{{21}}
+		fds, ok = c18lib.CreateFor(model.FeatureTypeType(fac.FeatureTypes[ft]))
+		if !ok {
+			return []hx.Zs{{21}}
+		}
+		if !data.IsNil() {
+			historyFds[ft] = fds
+		}
 	}
 	var fd api.FunctionDataCmdInterface
 	for _, x := range fds {
@@ -379,6 +394,10 @@ func fixed(tier string) [][]hx.Zs {
 		for _, d := range depths {
 			var h []hx.Zs
 			for sh := int64(0); sh < 12; sh++ {
+				h = append(h, sampleRow(r[0], r[1], sh, d))
+			}
+			// and the plain shapes once more, after the filtered ones, on the same function data object
+			for _, sh := range []int64{0, 4, 3} {
 				h = append(h, sampleRow(r[0], r[1], sh, d))
 			}
 			out = append(out, h)
@@ -700,7 +719,7 @@ func main() {
 			10: "value-roundtrip", 11: "shared-elements-type", 12: "setpoint-description-elements-tag",
 			98: "observation-outside-model-vocabulary", 99: "operation-not-parsed"},
 		OpNames: map[int64]string{0: "Row", 1: "Codec", 2: "Decode"},
-		NewImpl: func() hx.Impl { return impl{} },
+		NewImpl: func() hx.Impl { historyFds = map[int64][]api.FunctionDataCmdInterface{}; return impl{} },
 		Gen:     gen,
 		Fixed:   fixed,
 		Count:   map[string]int{"quick": 1500, "thorough": 60000},
